@@ -978,7 +978,7 @@ impl<T: RealNumber> BaseMatrix<T> for DenseMatrix<T> {
         let max = self
             .values
             .iter()
-            .map(|x| x.abs())
+            .copied()
             .fold(T::neg_infinity(), |a, b| a.max(b));
         let mut z = T::zero();
         for r in 0..self.nrows {
